@@ -36,7 +36,7 @@ def canon (r : Rule) : Cpt :=
     nodes := (List.range (sh.A.length + sh.B.length)).map (fun i => 'n' :: natToStr i),
     args := sh.C.map (fun _ => some ['5']), kwpos := r.pos, kw := kwName r, opts := "right".toList, string := [] }
 
-/-- **`normalCpt` is satisfiable for EVERY one of the 142 rules** (so `line_roundtrip_table` is not vacuous
+/-- **`normalCpt` is satisfiable for EVERY one of the 142 rules** (so `line_roundtrip_table_partial` is not vacuous
     for any rule): the canonical component of each rule is in normal form. -/
 theorem nv_normalCpt_every_rule :
     G.rules.all (fun r => normalCpt G r (canon r) && (printCpt G (canon r)).isSome
@@ -56,27 +56,27 @@ theorem cVac_rule : exRule "Vac" ∈ G.rules := by decide +kernel
 theorem cVac_normal : normalCpt G (exRule "Vac") cVac = true := by decide +kernel
 theorem cVac_print : printCpt G cVac = some "V1 1 0 ac 5 0 3".toList := by decide +kernel
 
-/-- `line_roundtrip` applied to the component parsed from `V1 1 0 ac 5 0 3` -/
+/-- `line_roundtrip_partial` applied to the component parsed from `V1 1 0 ac 5 0 3` -/
 theorem nv_line_roundtrip_Vac :
     ∃ kp os, (∀ used, parse G used [] "V1 1 0 ac 5 0 3".toList
         = .ok ({ cVac with args := normArgs cVac.args, kwpos := kp, opts := os, string := "V1 1 0 ac 5 0 3".toList }, none))
       ∧ (cVac.kw ≠ [] → kp = cVac.kwpos) := by
-  obtain ⟨kp, os, h1, h2, _⟩ := line_roundtrip G nv_grammarWF (exRule "Vac") cVac_rule cVac cVac_normal _ cVac_print
+  obtain ⟨kp, os, h1, h2, _⟩ := line_roundtrip_partial G nv_grammarWF (exRule "Vac") cVac_rule cVac cVac_normal _ cVac_print
   exact ⟨kp, os, h1, h2⟩
 
 theorem nv_line_roundtrip_table_Vac :
     ∃ kp os, (∀ used, parse G used [] "V1 1 0 ac 5 0 3".toList
         = .ok ({ cVac with args := normArgs cVac.args, kwpos := kp, opts := os, string := "V1 1 0 ac 5 0 3".toList }, none)) := by
-  obtain ⟨kp, os, h1, _⟩ := line_roundtrip_table (exRule "Vac") cVac_rule cVac cVac_normal _ cVac_print
+  obtain ⟨kp, os, h1, _⟩ := line_roundtrip_table_partial (exRule "Vac") cVac_rule cVac cVac_normal _ cVac_print
   exact ⟨kp, os, h1⟩
 
 theorem nv_line_roundtrip_full_Vac : RT cVac "V1 1 0 ac 5 0 3" := by
   obtain ⟨c', h1, h2, h3, h4, _⟩ :=
-    line_roundtrip_full G nv_grammarWF (exRule "Vac") cVac_rule cVac cVac_normal [] (by rfl) (by decide) _ cVac_print
+    line_roundtrip_full_partial G nv_grammarWF (exRule "Vac") cVac_rule cVac cVac_normal [] (by rfl) (by decide) _ cVac_print
   exact ⟨c', h1, h2, h3, h4⟩
 
 theorem nv_line_roundtrip_full_table_Vac : RT cVac "V1 1 0 ac 5 0 3" :=
-  line_roundtrip_full_table (exRule "Vac") cVac_rule cVac cVac_normal [] (by rfl) (by decide) _ cVac_print
+  line_roundtrip_full_table_partial (exRule "Vac") cVac_rule cVac cVac_normal [] (by rfl) (by decide) _ cVac_print
 
 /-! ### `V1 1 0 ac 5`  (optional arguments absent: printed as `V1 1 0 ac 5 0` -- the text CHANGES) -/
 
@@ -86,7 +86,7 @@ theorem cVac2_parsed : parsed "V1 1 0 ac 5" = some cVac2 := by decide +kernel
 theorem cVac2_normal : normalCpt G (exRule "Vac") cVac2 = true := by decide +kernel
 theorem cVac2_print : printCpt G cVac2 = some "V1 1 0 ac 5 0".toList := by decide +kernel
 theorem nv_line_roundtrip_full_Vac2 : RT cVac2 "V1 1 0 ac 5 0" :=
-  line_roundtrip_full_table (exRule "Vac") cVac_rule cVac2 cVac2_normal [] (by rfl) (by decide) _ cVac2_print
+  line_roundtrip_full_table_partial (exRule "Vac") cVac_rule cVac2 cVac2_normal [] (by rfl) (by decide) _ cVac2_print
 
 /-! ### `C1 1 2 4 2`  (rule `C`: no keyword, value and initial condition) and `C1 1 2` (elided default) -/
 
@@ -96,14 +96,14 @@ theorem cC_rule : exRule "C" ∈ G.rules := by decide +kernel
 theorem cC_normal : normalCpt G (exRule "C") cC = true := by decide +kernel
 theorem cC_print : printCpt G cC = some "C1 1 2 4 2".toList := by decide +kernel
 theorem nv_line_roundtrip_full_C : RT cC "C1 1 2 4 2" :=
-  line_roundtrip_full_table (exRule "C") cC_rule cC cC_normal [] (by rfl) (by decide) _ cC_print
+  line_roundtrip_full_table_partial (exRule "C") cC_rule cC cC_normal [] (by rfl) (by decide) _ cC_print
 
 def cC0 : Cpt := { exCpt "C" "C1" "C" "1" ["1", "2"] [some "C1", none] none "" "" with string := "C1 1 2".toList }
 theorem cC0_parsed : parsed "C1 1 2" = some cC0 := by decide +kernel
 theorem cC0_normal : normalCpt G (exRule "C") cC0 = true := by decide +kernel
 theorem cC0_print : printCpt G cC0 = some "C1 1 2".toList := by decide +kernel
 theorem nv_line_roundtrip_full_C0 : RT cC0 "C1 1 2" :=
-  line_roundtrip_full_table (exRule "C") cC_rule cC0 cC0_normal [] (by rfl) (by decide) _ cC0_print
+  line_roundtrip_full_table_partial (exRule "C") cC_rule cC0 cC0_normal [] (by rfl) (by decide) _ cC0_print
 
 /-! ### `E1 1 2 opamp 3 4 1e6`  (rule `Eopamp`: nodes, keyword, nodes, three optional arguments with defaults) -/
 
@@ -115,7 +115,7 @@ theorem cE_rule : exRule "Eopamp" ∈ G.rules := by decide +kernel
 theorem cE_normal : normalCpt G (exRule "Eopamp") cE = true := by decide +kernel
 theorem cE_print : printCpt G cE = some "E1 1 2 opamp 3 4 1e6 0 0".toList := by decide +kernel
 theorem nv_line_roundtrip_full_E : RT cE "E1 1 2 opamp 3 4 1e6 0 0" :=
-  line_roundtrip_full_table (exRule "Eopamp") cE_rule cE cE_normal [] (by rfl) (by decide) _ cE_print
+  line_roundtrip_full_table_partial (exRule "Eopamp") cE_rule cE cE_normal [] (by rfl) (by decide) _ cE_print
 
 /-! ### a line with a braced value and drawing attributes: `R1 1 2 {a + b}; right=2, l=R_1` -/
 
@@ -128,7 +128,7 @@ theorem cR_normal : normalCpt G (exRule "R") cR = true := by decide +kernel
 theorem cR_print : printCpt G cR = some "R1 1 2 {a + b}; right=2, l=R_1".toList := by decide +kernel
 def oR : Opts := [("right".toList, .s "2".toList), ("l".toList, .s "R_1".toList)]
 theorem nv_line_roundtrip_full_R : RT cR "R1 1 2 {a + b}; right=2, l=R_1" :=
-  line_roundtrip_full_table (exRule "R") cR_rule cR cR_normal oR (by rfl) (by decide) _ cR_print
+  line_roundtrip_full_table_partial (exRule "R") cR_rule cR cR_normal oR (by rfl) (by decide) _ cR_print
 
 /-! ## 1. Props/C06.lean -/
 
@@ -234,14 +234,14 @@ theorem nv_suffix_value_Meg :
     valueParser Gen.Grammar.suffixSrc ("2.2".toList ++ ['M', 'e', 'g']) = .num ((22 / 10 : Rat) * pow10 6) :=
   suffix_value_Meg _ "2.2".toList 6 (22 / 10) (by decide +kernel) (by decide)
 
-/-- `print_idempotent`: hypotheses satisfiable by a hand-made `c'` … -/
+/-- `print_normArgs_invariant`: hypotheses satisfiable by a hand-made `c'` … -/
 theorem nv_print_idempotent : printCpt G { cVac2 with args := normArgs cVac2.args } = printCpt G cVac2 :=
-  print_idempotent G cVac2 { cVac2 with args := normArgs cVac2.args } rfl rfl rfl rfl rfl rfl rfl rfl
+  print_normArgs_invariant G cVac2 { cVac2 with args := normArgs cVac2.args } rfl rfl rfl rfl rfl rfl rfl rfl
 
 /-- … but NOT by the component that re-parsing the printed text actually returns: for `V1 1 0 ac 5` (printed
     `V1 1 0 ac 5 0`) the re-parsed component has another `string` (hypothesis `hstr` fails), and for an
     option string that `format` re-spaces, another `opts` (hypothesis `hopts` fails).  The statement that covers
-    the real re-parse is `line_roundtrip_full` (conclusion `printCpt g c' = some s`). -/
+    the real re-parse is `line_roundtrip_full_partial` (conclusion `printCpt g c' = some s`). -/
 theorem print_idempotent_hyps_fail_on_real_reparse :
     (match parsed "V1 1 0 ac 5 0" with | some c' => c'.string != cVac2.string | none => false) = true
     ∧ (match parsed "R1 1 2; right=2,l=R_1", parsed "R1 1 2; right=2, l=R_1" with
@@ -436,7 +436,7 @@ theorem net3_lines : net3.mapM (printCpt G) = some (toks ["V1 1 0 ac 5 0 3", "R1
 theorem nv_lines_exist :
     ∃ lcs : List (Str × Cpt), lcs.map (·.1) = toks ["V1 1 0 ac 5 0 3", "R1 1 2 {a + b}; right=2, l=R_1", "C1 1 2 4 2"]
       ∧ (∀ p ∈ lcs, LineOK G p.1 p.2) ∧ lcs.map (·.2.name) = net3.map (·.name) ∧ sameNetlist net3 (lcs.map (·.2)) = true := by
-  obtain ⟨lcs, h1, _, h3, h4, h5⟩ := lines_exist G nv_grammarWF net3 net3_normal net3_nonl _ net3_lines
+  obtain ⟨lcs, h1, _, h3, h4, h5⟩ := lines_exist_partial G nv_grammarWF net3 net3_normal net3_nonl _ net3_lines
   exact ⟨lcs, h1, fun p hp => (h3 p hp).1, h4, h5⟩
 
 /-- `addLines_lines` with the `LineOK` facts that the line-level theorem provides for the three lines -/
@@ -450,11 +450,11 @@ theorem nv_addLines_lines :
 
 theorem nv_netlist_roundtrip :
     ∃ cs', parseNetlist G txt3 = .ok ⟨cs', []⟩ ∧ sameNetlist net3 cs' = true ∧ printNetlist G ⟨cs', []⟩ = some txt3 :=
-  netlist_roundtrip G nv_grammarWF net3 (by decide) net3_normal (by decide) net3_nonl txt3 (by decide +kernel)
+  netlist_roundtrip_partial G nv_grammarWF net3 (by decide) net3_normal (by decide) net3_nonl txt3 (by decide +kernel)
 
 theorem nv_netlist_roundtrip_table :
     ∃ cs', parseNetlist G txt3 = .ok ⟨cs', []⟩ ∧ sameNetlist net3 cs' = true ∧ printNetlist G ⟨cs', []⟩ = some txt3 :=
-  netlist_roundtrip_table net3 (by decide) net3_normal (by decide) net3_nonl txt3 (by decide +kernel)
+  netlist_roundtrip_table_partial net3 (by decide) net3_normal (by decide) net3_nonl txt3 (by decide +kernel)
 
 /-! ## 4. Props/C06Nested.lean -/
 
@@ -523,7 +523,7 @@ theorem nv_fixes_change_nothing_else :
     (each of these is accepted by the model's parser -- `parsed … = some _` -- and by the real parser) -/
 
 /-- a namespaced name is accepted by the parser but is NOT in normal form (`nameOK` forbids `.`):
-    `line_roundtrip*` / `netlist_roundtrip*` say nothing about `a.R1 1 2 3` -/
+    `line_roundtrip_partial*` / `netlist_roundtrip_partial*` say nothing about `a.R1 1 2 3` -/
 theorem boundary_namespaced_not_normal :
     (parsed "a.R1 1 2 3").isSome = true
     ∧ ∀ r ∈ G.rules, (match parsed "a.R1 1 2 3" with | some c => normalCpt G r c | none => true) = false := by
@@ -537,7 +537,7 @@ theorem boundary_anonymous_not_normal :
 
 /-- the most common drawing-attribute style `l={R_1}` / `l=$R_{1}$` (a value with braces) parses and prints back
     identically in the model, but its option table is NOT `optsNormal`: `opts_format_parse`,
-    `line_roundtrip_full*`, `netlist_roundtrip*` do not apply to it -/
+    `line_roundtrip_full_partial*`, `netlist_roundtrip_partial*` do not apply to it -/
 theorem boundary_braced_option_not_normal :
     (match optsParse "right=2, l={R_1}".toList with | .ok o => optsNormal o | .error _ => true) = false
     ∧ (match optsParse "l=$R_{1}$".toList with | .ok o => optsNormal o | .error _ => true) = false
@@ -560,12 +560,12 @@ theorem boundary_trailingNone :
 /-- the driver prints with `printCptC theCfg`; for the checked-out source no repair is present … -/
 theorem tie_theCfg : theCfg = ⟨false, false, false⟩ := by decide
 /-- … so the driver's printer IS the `printCpt` of the round-trip theorems (NOT stated in any Props file:
-    when a repair lands in /repo, `theCfg` changes and `line_roundtrip*` are about a printer the driver
+    when a repair lands in /repo, `theCfg` changes and `line_roundtrip_partial*` are about a printer the driver
     no longer runs, while every Props file still builds) -/
 theorem tie_driver_printer (c : Cpt) : printCptC theCfg G c = printCpt G c := by
   rw [tie_theCfg]; exact printCptC_current G c
 
-/-- the same for the netlist printer of `c06.rt` (`printNetlistC theCfg`) and the `printNetlist` of `netlist_roundtrip` -/
+/-- the same for the netlist printer of `c06.rt` (`printNetlistC theCfg`) and the `printNetlist` of `netlist_roundtrip_partial` -/
 theorem tie_driver_netlist_printer (s : NState) : printNetlistC theCfg G s = printNetlist G s := by
   have : printCptC theCfg G = printCpt G := funext tie_driver_printer
   simp [printNetlistC, printNetlist, this]
